@@ -22,6 +22,7 @@ func deadlineFor(tier string) time.Duration {
 
 var roots01 = []string{"R0", "R1"}
 var roots012 = []string{"R0", "R1", "R2"}
+var roots0123 = []string{"R0", "R1", "R2", "R3"}
 
 const ruleW = "every op sequence up to the stated depth over the stated alphabet from every stated root is executed as real blocks (signed txs through FinalizeBlock/Commit); a state is distinct by (app hash, height, block time, feeder prices); the oracle is evaluated after every block"
 
@@ -55,33 +56,35 @@ func WConfig(prop, tier string) *Config {
 		}
 	case "C02":
 		ops := []string{"create_pool_lp1", "join_p1_all_t1", "join_p1_single_usdc_t1", "join_p1_single_atom_dust_t2", "join_p2_all_t1", "exit_p1_10pct_lp1", "exit_p1_single_atom_lp1", "exit_p1_all_t1", "exit_p2_allbut1_lp1", "exit_p2_all_lp1", "exit_p1_1share_lp1",
-			"llp_open_t1_x3", "llp_open_t1_x2_again", "llp_open_t2_x5", "llp_close_half_t1", "llp_close_full_t1", "llp_bot_close_all", "llp_claim_t1", "mc_claim_lp1", "price_atom_2", "price_atom_12", "swap_in_p1_usdc_atom_L", "gap_1d"}
+			"llp_open_t1_x3", "llp_open_t1_x2_again", "llp_open_t2_x5", "llp_close_half_t1", "llp_close_full_t1", "llp_bot_close_all", "llp_claim_t1", "mc_claim_lp1", "price_atom_2", "price_atom_1", "price_atom_12", "swap_in_p1_usdc_atom_L", "gap_1d"}
 		cfg.Oracles = []*Oracle{OracleC02()}
 		if thorough {
 			cfg.Phases = []Phase{
-				{Name: "full-depth3", Roots: roots01, Ops: ops, Depth: 3, Dev: 2},
+				{Name: "full-depth3", Roots: []string{"R0", "R1", "R5"}, Ops: ops, Depth: 3, Dev: 2},
 				{Name: "llp-exit-depth4", Roots: roots01, Ops: []string{"join_p1_all_t1", "exit_p1_all_t1", "exit_p1_single_atom_lp1", "llp_open_t1_x3", "llp_open_t1_x2_again", "llp_open_t2_x5", "llp_close_half_t1", "llp_close_full_t1", "llp_bot_close_all", "price_atom_2"}, Depth: 4, Dev: 2},
 			}
 		} else {
-			cfg.Phases = []Phase{{Name: "full-depth2", Roots: roots01, Ops: ops, Depth: 2, Dev: 2}}
+			cfg.Phases = []Phase{{Name: "full-depth2", Roots: []string{"R0", "R1", "R5"}, Ops: ops, Depth: 2, Dev: 2}}
 		}
 	case "C06":
 		ops := []string{"bond_lp1_L", "bond_lp1_D", "unbond_lp2_half", "unbond_lp2_D", "unbond_lp2_all", "llp_open_t1_x3", "llp_open_t1_x2_again", "llp_open_t2_x5", "llp_close_half_t1", "llp_close_full_t1", "llp_close_full_t2", "llp_bot_close_all",
 			"price_atom_2", "price_atom_12", "gap_1d", "gap_30d", "swap_in_p1_usdc_atom_XL", "empty"}
 		cfg.Oracles = []*Oracle{OracleC06()}
+		ops = append(ops, "cfg_llp_fallback_off")
 		if thorough {
-			cfg.Phases = []Phase{{Name: "full-depth3", Roots: roots012, Ops: ops, Depth: 3, Dev: 3}, {Name: "core-depth4", Roots: roots01, Ops: []string{"bond_lp1_D", "unbond_lp2_half", "llp_open_t1_x3", "llp_open_t2_x5", "llp_close_half_t1", "llp_close_full_t1", "llp_bot_close_all", "price_atom_2", "gap_30d", "swap_in_p1_usdc_atom_XL"}, Depth: 4, Dev: 3}}
+			cfg.Phases = []Phase{{Name: "full-depth3", Roots: roots0123, Ops: ops, Depth: 3, Dev: 3}, {Name: "core-depth4", Roots: []string{"R1", "R3"}, Ops: []string{"bond_lp1_D", "unbond_lp2_half", "llp_open_t1_x3", "llp_open_t2_x5", "llp_close_half_t1", "llp_close_full_t1", "llp_bot_close_all", "price_atom_2", "gap_30d", "swap_in_p1_usdc_atom_XL"}, Depth: 4, Dev: 3}}
 		} else {
-			cfg.Phases = []Phase{{Name: "full-depth2", Roots: roots012, Ops: ops, Depth: 2, Dev: 2}}
+			cfg.Phases = []Phase{{Name: "full-depth2", Roots: roots0123, Ops: ops, Depth: 2, Dev: 2}}
 		}
 	case "C08":
-		ops := []string{"llp_open_t1_x3", "llp_open_t1_x2_again", "llp_open_t2_x5", "llp_open_t3_x9", "llp_open_t3_dust", "llp_close_half_t1", "llp_close_full_t1", "llp_close_1share_t1", "llp_close_allbut1_t1", "llp_close_full_t2", "llp_update_sl_t1", "llp_bot_close_all",
-			"unbond_lp2_all", "price_atom_2", "price_atom_12", "swap_in_p1_usdc_atom_XL", "join_p1_all_t1", "exit_p1_10pct_lp1", "gap_30d", "empty"}
+		ops := []string{"llp_open_t1_x3", "llp_open_t1_x2_again", "llp_open_t2_x5", "llp_open_t3_x9", "llp_open_t3_dust", "llp_close_half_t1", "llp_close_full_t1", "llp_close_1share_t1", "llp_close_allbut1_t1", "llp_close_full_t2", "llp_update_sl_t1", "llp_bot_close_all", "llp_bot_stoploss_all",
+			"unbond_lp2_all", "price_atom_2", "price_atom_1", "price_atom_12", "swap_in_p1_usdc_atom_XL", "join_p1_all_t1", "exit_p1_10pct_lp1", "gap_30d", "cfg_llp_fallback_off", "empty"}
 		cfg.Oracles = []*Oracle{OracleC08()}
+		rootsLlp := []string{"R0", "R1", "R3", "R5"}
 		if thorough {
-			cfg.Phases = []Phase{{Name: "full-depth3", Roots: roots012, Ops: ops, Depth: 3, Dev: 3}, {Name: "positions-depth4", Roots: roots01, Ops: []string{"llp_open_t1_x3", "llp_open_t1_x2_again", "llp_open_t2_x5", "llp_open_t3_x9", "llp_close_half_t1", "llp_close_full_t1", "llp_close_allbut1_t1", "llp_bot_close_all", "unbond_lp2_all", "price_atom_2", "gap_30d", "empty"}, Depth: 4, Dev: 3}}
+			cfg.Phases = []Phase{{Name: "full-depth3", Roots: rootsLlp, Ops: ops, Depth: 3, Dev: 3}, {Name: "positions-depth4", Roots: []string{"R1", "R5"}, Ops: []string{"llp_open_t1_x3", "llp_open_t1_x2_again", "llp_open_t2_x5", "llp_open_t3_x9", "llp_close_half_t1", "llp_close_full_t1", "llp_close_allbut1_t1", "llp_bot_close_all", "unbond_lp2_all", "price_atom_2", "price_atom_1", "gap_30d", "empty"}, Depth: 4, Dev: 3}}
 		} else {
-			cfg.Phases = []Phase{{Name: "full-depth2", Roots: roots012, Ops: ops, Depth: 2, Dev: 2}}
+			cfg.Phases = []Phase{{Name: "full-depth2", Roots: rootsLlp, Ops: ops, Depth: 2, Dev: 2}}
 		}
 	case "C09":
 		ops := []string{"perp_open_long_t1", "perp_open_long_atomcoll_t1", "perp_open_long_t3_x5", "perp_open_short_t2", "perp_open_short_t2_dust", "perp_topup_t1", "perp_close_half_t1", "perp_close_full_t1", "perp_close_full_t2", "perp_close_half_t2", "perp_update_tp_t1", "perp_update_sl_t1", "perp_bot_close_all",
@@ -115,22 +118,22 @@ func WConfig(prop, tier string) *Config {
 			"llp_open_t1_x3", "llp_close_full_t1", "mc_claim_lp1", "mc_claim_lp2", "mc_claim_t1", "empty"}
 		cfg.Oracles = []*Oracle{OracleC13()}
 		if thorough {
-			cfg.Phases = []Phase{{Name: "full-depth3", Roots: roots01, Ops: ops, Depth: 3, Dev: 3}}
+			cfg.Phases = []Phase{{Name: "full-depth3", Roots: []string{"R0", "R1", "R4"}, Ops: ops, Depth: 3, Dev: 3}}
 			cfg.NodeHook = C13Drain(2) // drain in all 24 claim orders below every node of depth <= 2
 		} else {
-			cfg.Phases = []Phase{{Name: "full-depth2", Roots: roots01, Ops: ops, Depth: 2, Dev: 2}}
+			cfg.Phases = []Phase{{Name: "full-depth2", Roots: []string{"R0", "R1", "R4"}, Ops: ops, Depth: 2, Dev: 2}}
 			cfg.NodeHook = C13Drain(1)
 		}
 	case "C15":
 		ops := []string{"swap_in_p1_usdc_atom_L", "swap_out_p2_elys_usdc_L", "swap_fail_minout_p1", "join_p1_all_t1", "join_p2_all_t1", "exit_p1_10pct_lp1", "exit_p2_half_lp1", "exit_p2_all_t1", "create_pool_lp1",
 			"perp_open_long_t1", "perp_open_short_t2", "perp_close_full_t1", "perp_bot_close_all", "llp_open_t1_x3", "llp_close_full_t1", "llp_bot_close_all", "bond_lp1_L", "unbond_lp2_half", "unbond_lp2_all",
 			"mc_claim_lp1", "commit_eden_lp1", "vest_eden_lp1", "cancel_vest_lp1", "claim_vesting_lp1", "vest_now_lp1", "stake_elys_lp1", "unstake_elys_lp1", "estaking_withdraw_lp1", "send_elys_to_burn_addr",
-			"fee_tx_uatom", "fee_tx_uelys", "price_atom_2", "price_atom_12", "gap_1h", "gap_1d", "gap_30d", "nofeed", "empty"}
+			"fee_tx_uatom", "fee_tx_uelys", "price_atom_2", "price_atom_1", "price_atom_12", "gap_1h", "gap_1d", "gap_30d", "nofeed", "empty"}
 		cfg.Oracles = []*Oracle{OracleC15Supply(), OracleC15()}
 		if thorough {
-			cfg.Phases = []Phase{{Name: "full-depth3", Roots: roots012, Ops: ops, Depth: 3, Dev: 3}}
+			cfg.Phases = []Phase{{Name: "full-depth3", Roots: []string{"R0", "R1", "R2", "R5"}, Ops: ops, Depth: 3, Dev: 3}}
 		} else {
-			cfg.Phases = []Phase{{Name: "full-depth2", Roots: roots012, Ops: ops, Depth: 2, Dev: 2}}
+			cfg.Phases = []Phase{{Name: "full-depth2", Roots: []string{"R0", "R1", "R5"}, Ops: ops, Depth: 2, Dev: 2}}
 		}
 	case "C18":
 		ops := []string{"swap_in_p1_usdc_atom_D", "swap_in_p1_usdc_atom_XL", "swap_out_p1_atom_usdc_D", "swap_in_p2_elys_usdc_D", "swap_in_p2_usdc_elys_L", "swap_fail_minout_p1", "join_p1_single_atom_dust_t2", "join_p2_all_t1", "exit_p2_allbut1_lp1", "exit_p1_single_atom_lp1",
@@ -153,17 +156,17 @@ func WConfig(prop, tier string) *Config {
 		}
 	case "C20":
 		ops := []string{"ts_spot_limitbuy_met_own1", "ts_spot_limitbuy_unmet_own1", "ts_spot_limitsell_met_own1", "ts_spot_stoploss_unmet_own1", "ts_spot_limitbuy_met_own2", "ts_marketbuy_own2",
-			"ts_perp_long_met_own1", "ts_perp_long_unmet_own1", "ts_perp_short_unmet_own1", "ts_perp_long_met_huge_own1",
+			"ts_perp_long_met_own1", "ts_perp_long_unmet_own1", "ts_perp_short_unmet_own1", "ts_perp_long_met_huge_own1", "ts_perp_long_met_own2",
 			"ts_update_spot_first_by_own1", "ts_cancel_spot_first_by_own1", "ts_update_perp_first_by_own1", "ts_cancel_perp_first_by_own1", "ts_cancel_all_by_own1",
 			"ts_update_spot_first_by_own2", "ts_cancel_spot_first_by_bot", "ts_update_perp_first_by_bot", "ts_cancel_perp_first_by_own2", "ts_cancel_all_by_own2",
 			"ts_execute_all_bot", "ts_execute_all_plus_missing_bot", "ts_execute_all_twice", "cfg_perp_maxpos0", "price_atom_3", "price_atom_8", "nofeed", "empty"}
 		cfg.Oracles = []*Oracle{OracleC20()}
 		if thorough {
 			cfg.Phases = []Phase{{Name: "full-depth3", Roots: []string{"R0", "R1"}, Ops: ops, Depth: 3, Dev: 3},
-				{Name: "core-depth4", Roots: []string{"R0"}, Ops: []string{"ts_spot_limitbuy_met_own1", "ts_spot_stoploss_unmet_own1", "ts_perp_long_met_own1", "ts_perp_long_unmet_own1", "ts_perp_long_met_huge_own1", "ts_update_perp_first_by_own1", "ts_cancel_all_by_own1", "ts_cancel_spot_first_by_bot", "ts_execute_all_bot", "ts_execute_all_twice", "cfg_perp_maxpos0", "price_atom_3"}, Depth: 4, Dev: 3}}
+				{Name: "core-depth4", Roots: []string{"R0"}, Ops: []string{"ts_spot_limitbuy_met_own1", "ts_spot_stoploss_unmet_own1", "ts_perp_long_met_own1", "ts_perp_long_unmet_own1", "ts_perp_long_met_huge_own1", "ts_perp_short_unmet_own1", "ts_perp_long_met_own2", "ts_update_perp_first_by_own1", "ts_cancel_all_by_own1", "ts_cancel_spot_first_by_bot", "ts_execute_all_bot", "ts_execute_all_twice", "cfg_perp_maxpos0", "price_atom_3"}, Depth: 4, Dev: 3}}
 		} else {
 			cfg.Phases = []Phase{{Name: "full-depth2", Roots: []string{"R0", "R1"}, Ops: ops, Depth: 2, Dev: 2},
-				{Name: "core-depth3", Roots: []string{"R0"}, Ops: []string{"ts_spot_limitbuy_met_own1", "ts_spot_stoploss_unmet_own1", "ts_perp_long_met_own1", "ts_perp_long_met_huge_own1", "ts_cancel_all_by_own1", "ts_execute_all_bot", "cfg_perp_maxpos0", "price_atom_3"}, Depth: 3, Dev: 3}}
+				{Name: "core-depth3", Roots: []string{"R0"}, Ops: []string{"ts_spot_limitbuy_met_own1", "ts_spot_stoploss_unmet_own1", "ts_perp_long_met_own1", "ts_perp_long_met_huge_own1", "ts_perp_short_unmet_own1", "ts_perp_long_met_own2", "ts_cancel_all_by_own1", "ts_execute_all_bot", "cfg_perp_maxpos0", "price_atom_3"}, Depth: 3, Dev: 3}}
 		}
 	case "C10":
 		ops := []string{"llp_open_t1_x3_stoploss", "llp_open_t2_x5", "llp_open_t3_x9", "llp_open_t1_x2_again", "perp_open_long_t1_stoploss", "perp_open_short_t2", "perp_open_long_t3_x5", "perp_open_long_t3_max", "perp_topup_t1", "perp_update_sl_t1",
